@@ -25,7 +25,9 @@ type Frame struct {
 	results   []Val
 	locals    map[string]Val // source-level variable name -> current value (top frame only)
 	localT    map[string]types.Type
-	localAddr map[string]SV // address-taken locals: pointer to the cell
+	localAddr map[string]SV        // address-taken locals: pointer to the cell
+	localSrc  map[string]ssa.Value // SSA value currently bound to each local name
+	addrSrc   map[string]ssa.Value
 }
 
 type deferRec struct {
@@ -58,6 +60,14 @@ func (f *Frame) clone() *Frame {
 			for k, v := range f.localAddr {
 				n.localAddr[k] = v
 			}
+		}
+		n.localSrc = make(map[string]ssa.Value, len(f.localSrc))
+		for k, v := range f.localSrc {
+			n.localSrc[k] = v
+		}
+		n.addrSrc = make(map[string]ssa.Value, len(f.addrSrc))
+		for k, v := range f.addrSrc {
+			n.addrSrc[k] = v
 		}
 	}
 	n.caller = f.caller.clone()
@@ -422,14 +432,49 @@ func (st *State) nilCheck(term string, what string) {
 	if term == "" {
 		return
 	}
-	st.oblige("nopanic[nil]", fmt.Sprintf("(not (= %s 0))", term), what)
+	name := "nopanic[nil]"
+	if strings.HasPrefix(what, "field ") {
+		name = "nopanic[nil:" + strings.TrimPrefix(what, "field ") + "]"
+	}
+	st.oblige(name, fmt.Sprintf("(not (= %s 0))", term), what)
 	st.assume(fmt.Sprintf("(not (= %s 0))", term))
 }
 
 func (st *State) boundsCheck(i, n string, what string) {
 	g := fmt.Sprintf("(and (<= 0 %s) (< %s %s))", i, i, n)
-	st.oblige("nopanic[bounds]", g, what)
+	name := "nopanic[bounds]"
+	if k := strings.Index(what, ":"); k >= 0 {
+		name = "nopanic[bounds:" + what[k+1:] + "]"
+	}
+	st.oblige(name, g, what)
 	st.assume(g)
+}
+
+// valueName: a stable source-level name for the slice/array being indexed (variable, field), or "".
+func valueName(v ssa.Value) string {
+	switch x := v.(type) {
+	case *ssa.UnOp:
+		return valueName(x.X)
+	case *ssa.Alloc:
+		return x.Comment
+	case *ssa.FieldAddr:
+		if st, ok := x.X.Type().Underlying().(*types.Pointer).Elem().Underlying().(*types.Struct); ok {
+			return st.Field(x.Field).Name()
+		}
+	case *ssa.Field:
+		if st, ok := x.X.Type().Underlying().(*types.Struct); ok {
+			return st.Field(x.Field).Name()
+		}
+	case *ssa.Parameter:
+		return x.Name()
+	case *ssa.FreeVar:
+		return x.Name()
+	case *ssa.Phi:
+		return x.Comment
+	case *ssa.Slice:
+		return valueName(x.X)
+	}
+	return ""
 }
 
 func (st *State) derefLoad(p Val, elem types.Type) Val {
@@ -498,13 +543,13 @@ func (st *State) execInstr(in ssa.Instruction) {
 		iv := st.val(x.Index)
 		switch u := x.X.Type().Underlying().(type) {
 		case *types.Slice:
-			st.boundsCheck(iv.T, xv.Fs[1].T, "slice index")
+			st.boundsCheck(iv.T, xv.Fs[1].T, "slice index:"+valueName(x.X))
 			sz := st.g.P.sizeof(u.Elem())
 			a := st.g.elemAddr(xv.Fs[0].T, iv.T, sz)
 			st.fr.regs[x] = st.ptrTo(u.Elem(), a)
 		case *types.Pointer:
 			arr := u.Elem().Underlying().(*types.Array)
-			st.boundsCheck(iv.T, fmt.Sprint(arr.Len()), "array index")
+			st.boundsCheck(iv.T, fmt.Sprint(arr.Len()), "array index:"+valueName(x.X))
 			l := st.asLoc(xv, u.Elem())
 			sz := st.g.P.sizeof(arr.Elem())
 			if l.Heap == "mem.flatarr" {
